@@ -235,6 +235,120 @@ fn size_class(n: usize) -> &'static str {
     }
 }
 
+/// How many of the offered bytes the writer directly below `hash::Write` takes per call.
+#[derive(Serialize, Deserialize, Hash, Clone, Debug, PartialEq, Eq)]
+enum Accept {
+    All,
+    AtMost(usize),
+    /// half of what is offered, rounded up
+    Half,
+}
+/// One irregular answer of that writer, given once, at the first call after `n` bytes were accepted in total.
+#[derive(Serialize, Deserialize, Hash, Clone, Debug, PartialEq, Eq)]
+enum Hiccup {
+    None,
+    /// `Err(ErrorKind::Interrupted)` — the caller must retry with the same bytes
+    InterruptedAt(usize),
+    /// `Ok(0)` for a non-empty buffer — nothing was taken, a retrying caller offers the same bytes again
+    ZeroAt(usize),
+}
+#[derive(Serialize, Deserialize, Hash, Clone, Debug)]
+struct HwCase {
+    data: Data,
+    pattern: Pattern,
+    accept: Accept,
+    hiccup: Hiccup,
+    /// chunks written with `write_all` (true) or with a hand-written retry loop over `write` (false)
+    write_all: bool,
+}
+
+struct FlakySink {
+    out: Vec<u8>,
+    accept: Accept,
+    hiccup: Hiccup,
+    fired: bool,
+    short_writes: u64,
+}
+impl Write for FlakySink {
+    fn write(&mut self, buf: &[u8]) -> io::Result<usize> {
+        if !self.fired {
+            match self.hiccup {
+                Hiccup::InterruptedAt(p) if self.out.len() >= p => {
+                    self.fired = true;
+                    return Err(io::Error::new(io::ErrorKind::Interrupted, "interrupted once"));
+                }
+                Hiccup::ZeroAt(p) if self.out.len() >= p && !buf.is_empty() => {
+                    self.fired = true;
+                    return Ok(0);
+                }
+                _ => {}
+            }
+        }
+        let n = match self.accept {
+            Accept::All => buf.len(),
+            Accept::AtMost(k) => buf.len().min(k),
+            Accept::Half => (buf.len() + 1) / 2,
+        };
+        if n < buf.len() {
+            self.short_writes += 1;
+        }
+        self.out.extend_from_slice(&buf[..n]);
+        Ok(n)
+    }
+    fn flush(&mut self) -> io::Result<()> {
+        Ok(())
+    }
+}
+
+/// Write `image` in `chunks`, retrying like a careful caller does: `Interrupted` -> same bytes again, short write -> the rest,
+/// a single `Ok(0)` for a non-empty buffer -> same bytes again.
+fn write_chunks_retrying(w: &mut impl Write, image: &[u8], chunks: &[usize], write_all: bool) -> Result<(), String> {
+    let mut rest_all = image;
+    let mut zeros = 0;
+    for &n in chunks {
+        let (mut rest, tail) = rest_all.split_at(n);
+        rest_all = tail;
+        if write_all {
+            w.write_all(rest).map_err(|e| format!("write_all of {n} bytes failed: {e}"))?;
+            continue;
+        }
+        loop {
+            match w.write(rest) {
+                Ok(k) if k > rest.len() => return Err(format!("write of {} bytes returned {k}", rest.len())),
+                Ok(0) if !rest.is_empty() => {
+                    zeros += 1;
+                    if zeros > 1 {
+                        return Err("write returned 0 for a non-empty buffer more often than the sink did".into());
+                    }
+                }
+                Ok(k) => {
+                    rest = &rest[k..];
+                    if rest.is_empty() {
+                        break;
+                    }
+                }
+                Err(e) if e.kind() == io::ErrorKind::Interrupted => {}
+                Err(e) => return Err(format!("write failed: {e}")),
+            }
+        }
+    }
+    if !rest_all.is_empty() {
+        return Err(format!("harness: chunks do not cover the stream ({} bytes left)", rest_all.len()));
+    }
+    Ok(())
+}
+
+fn hiccup_positions(total: usize) -> Vec<usize> {
+    let mut v: Vec<usize> = if total <= 12 {
+        (0..=total).collect()
+    } else {
+        [0, 1, 7, 8, 4095, 4096, 32767, 32768, 65535, 65536, total / 2, total - 1].into_iter().filter(|p| *p < total).collect()
+    };
+    v.sort_unstable();
+    v.dedup();
+    v
+}
+
 fn lens(thorough: bool) -> Vec<usize> {
     if thorough {
         vec![0, 1, 2, 3, 5, 32767 - 7, 32767, 32768, 32769, 65535 - 7, 65535, 65536, 100_000, 131_071, (1 << 20) + 1, (1 << 22) + 3]
@@ -280,6 +394,8 @@ pub fn run(run: &'static Run) {
          write patterns: whole; for images <= 8 bytes (thorough: <= 12) every composition; otherwise every 1- and 2-cut split at {1,8, 32767,32768,32769, 65535,65536, len-1} (thorough also 7, 65537, len/2); \
          cyclic chunk sizes [0,1] [1] [7] [32767] [32768] [32769] [0,32768] [1,32768,0,32767] [65535] [65536,1] [4096,0,0,1] (0 = empty write); \
          x (innermost writer accepting {all, 1, 4095} bytes per call, {write_all | checked write loop}): 3 combinations quick, all 6 thorough. \
+         hash-write-over-partial-sink: hash::Write directly over a writer that accepts {all, 1, 7, 4095, half} of the offered bytes, optionally answering once with Interrupted or Ok(0) at every position of short images / at {0,1,7,8,4095,4096,32767,32768,65535,65536,len/2,len-1}, \
+         chunk patterns {whole, [7], [32768], [1,32768,0,32767], every composition of images <= 7 (thorough 10) bytes}, driven by write_all and by a retry loop; digest == compute_hash == git hash-object and sink content == input. \
          non-trivial = stream inflates (reference + gitoxide streaming inflate in the same chunk pattern) to the input and all four ids agree",
     );
     run.assume("git 2.39.5 `git hash-object -t blob --stdin` (one call per distinct data, memoized) and `git cat-file blob` as oracles; one-shot flate2 inflate as reference decompressor");
@@ -394,6 +510,95 @@ pub fn run(run: &'static Run) {
         },
     );
     run.require("the partial-accept sink really split writes", saw_partial_sink.load(Ordering::Relaxed) > 0);
+
+    // ---- hash::Write directly over writers that take fewer bytes than offered / must be retried ----
+    let retried = AtomicU64::new(0);
+    run.sub_with(
+        "hash-write-over-partial-sink",
+        vkit::Opts::default().chunk(2048),
+        |emit| {
+            for d in &datas {
+                if d.fill == "zeros" && d.len != 0 {
+                    continue; // the digest does not care about compressibility: two fillings suffice
+                }
+                let total = gix_object::encode::loose_header(gix_object::Kind::Blob, d.len as u64).len() + d.len;
+                let mut ps = vec![Pattern::Whole, Pattern::Cyclic(vec![7]), Pattern::Cyclic(vec![32768]), Pattern::Cyclic(vec![1, 32768, 0, 32767])];
+                if total <= if thorough { 10 } else { 7 } {
+                    enumerate::cuts(total, total, |c| {
+                        if !c.is_empty() {
+                            ps.push(Pattern::Cuts(c.to_vec()));
+                        }
+                    });
+                }
+                let mut hiccups = vec![Hiccup::None];
+                for p in hiccup_positions(total) {
+                    hiccups.push(Hiccup::InterruptedAt(p));
+                    hiccups.push(Hiccup::ZeroAt(p));
+                }
+                for p in &ps {
+                    let largest_chunk = p.chunks(total).into_iter().max().unwrap_or(0);
+                    for accept in [Accept::All, Accept::AtMost(1), Accept::AtMost(7), Accept::AtMost(4095), Accept::Half] {
+                        // bound the number of retries per chunk (a writer that hashed the offered bytes would otherwise need quadratic time)
+                        if let Accept::AtMost(k) = accept {
+                            // k >= every chunk behaves exactly like All
+                            if largest_chunk / k > 64 || k >= largest_chunk {
+                                continue;
+                            }
+                        }
+                        for h in &hiccups {
+                            for write_all in [true, false] {
+                                // write_all turns Ok(0) into an error by contract: only the retry loop can meet it
+                                if write_all && matches!(h, Hiccup::ZeroAt(_)) {
+                                    continue;
+                                }
+                                emit(HwCase { data: d.clone(), pattern: p.clone(), accept: accept.clone(), hiccup: h.clone(), write_all });
+                            }
+                        }
+                    }
+                }
+            }
+        },
+        |c: &HwCase| -> Verdict {
+            let data = c.data.bytes();
+            let mut image = gix_object::encode::loose_header(gix_object::Kind::Blob, data.len() as u64).to_vec();
+            image.extend_from_slice(&data);
+            let chunks = c.pattern.chunks(image.len());
+            let sink = FlakySink { out: Vec::new(), accept: c.accept.clone(), hiccup: c.hiccup.clone(), fired: false, short_writes: 0 };
+            let mut w = gix_features::hash::Write::new(sink, gix_hash::Kind::Sha1);
+            match write_chunks_retrying(&mut w, &image, &chunks, c.write_all) {
+                Ok(()) => {}
+                Err(m) if m.starts_with("harness") => vkit::machinery!("{m}"),
+                Err(m) => return bad("write", m),
+            }
+            if let Err(e) = w.flush() {
+                return bad("write", format!("flush failed: {e}"));
+            }
+            let digest = ObjectId::from(w.hash.digest());
+            let sink = w.inner;
+            if sink.out != image {
+                return bad("sink-content", first_diff(&sink.out, &image));
+            }
+            let one_call = gix_object::compute_hash(gix_hash::Kind::Sha1, gix_object::Kind::Blob, &data);
+            let git = git_id(&c.data, &data);
+            if digest != one_call || git != one_call.to_string() {
+                return bad(
+                    "digest",
+                    format!("hash::Write digest {digest} after {} short writes{}, compute_hash {one_call}, git hash-object {git}", sink.short_writes, if sink.fired { " and one retried call" } else { "" }),
+                );
+            }
+            if sink.short_writes > 0 || sink.fired {
+                retried.fetch_add(1, Ordering::Relaxed);
+            }
+            let how = match (&c.accept, &c.hiccup) {
+                (Accept::All, Hiccup::None) => "accepts-all".to_string(),
+                (a, Hiccup::None) => format!("short-writes-{}", match a { Accept::Half => "half".to_string(), Accept::AtMost(k) => k.to_string(), Accept::All => "none".into() }),
+                (_, Hiccup::InterruptedAt(_)) => if sink.fired { "interrupted-once".into() } else { "interrupt-position-not-reached".into() },
+                (_, Hiccup::ZeroAt(_)) => if sink.fired { "zero-once".into() } else { "zero-position-not-reached".into() },
+            };
+            ok(format!("hash-write/{how}/{}", if c.write_all { "write_all" } else { "retry-loop" }))
+        },
+    );
+    run.require("hash::Write saw short writes / retried calls from the writer below it", retried.load(Ordering::Relaxed) > 100);
 
     // ---- two streams through one writer (reset) ----
     run.sub(
